@@ -1,6 +1,7 @@
 package props
 
 import (
+	"fmt"
 	"strings"
 	"testing"
 
@@ -10,6 +11,7 @@ import (
 	"verif/internal/gen"
 	"verif/internal/harness"
 	"verif/internal/refcheck"
+	"verif/internal/reftypes"
 )
 
 // C07 — the typing verdict matches the declarative session type system (both directions).
@@ -124,7 +126,67 @@ func mutantCase(rt *rapid.T, h *harness.H, p *ast.Program, kinds []string) *case
 	return c
 }
 
+// equalityProgram: definitions from the equality generator (recursive types, clones rewritten by
+// unrolling / aliasing / permutation, near misses) and functions that relate two of them through a
+// forward, a call or a typed cut, so that the verdict hinges on type equality at the typechecker's
+// own call sites.
+func equalityProgram(rt *rapid.T, h *harness.H) *caseC07 {
+	d := gen.D{T: rt}
+	g := &gen.TyGen{D: d, MaxDepth: 3, NoShifts: d.Chance(30, "noshifts")}
+	decls, log := g.EqEnv()
+	env, ill := reftypes.Resolve(decls)
+	if ill != nil {
+		return nil
+	}
+	p := &ast.Program{Decls: decls}
+	n := d.Int(1, 4, "nfuns")
+	names := env.Order
+	for i := 0; i < n; i++ {
+		a := names[d.Pick(len(names), "a")]
+		b := names[d.Pick(len(names), "b")]
+		ta := func() *ast.Ty { return ast.NameTy(env.Defs[a].Mode, a) }
+		tb := func() *ast.Ty { return ast.NameTy(env.Defs[b].Mode, b) }
+		switch d.Pick(3, "shape") {
+		case 0: // let eq(x : A) : B = fwd self x
+			p.Decls = append(p.Decls, &ast.Decl{Kind: ast.DFun, Name: fmt.Sprintf("eq%d", i), Ty: tb(), Params: []ast.Param{{Name: "x", Ty: ta()}},
+				Body: &ast.Term{Kind: ast.TFwd, X: ast.SelfNm, Y: ast.N("x")}})
+		case 1: // let id(x : A) : A = fwd self x ; let use(y : B) : A = id(y)
+			p.Decls = append(p.Decls, &ast.Decl{Kind: ast.DFun, Name: fmt.Sprintf("id%d", i), Ty: ta(), Params: []ast.Param{{Name: "x", Ty: ta()}},
+				Body: &ast.Term{Kind: ast.TFwd, X: ast.SelfNm, Y: ast.N("x")}})
+			p.Decls = append(p.Decls, &ast.Decl{Kind: ast.DFun, Name: fmt.Sprintf("use%d", i), Ty: ta(), Params: []ast.Param{{Name: "y", Ty: tb()}},
+				Body: &ast.Term{Kind: ast.TCall, Fn: fmt.Sprintf("id%d", i), Args: []ast.Nm{ast.N("y")}}})
+		default: // let mk(x : A) : A = fwd self x ; let cut(y : A) : B = z : B <- new mk(y); fwd self z
+			p.Decls = append(p.Decls, &ast.Decl{Kind: ast.DFun, Name: fmt.Sprintf("mk%d", i), Ty: ta(), Params: []ast.Param{{Name: "x", Ty: ta()}},
+				Body: &ast.Term{Kind: ast.TFwd, X: ast.SelfNm, Y: ast.N("x")}})
+			p.Decls = append(p.Decls, &ast.Decl{Kind: ast.DFun, Name: fmt.Sprintf("cut%d", i), Ty: tb(), Params: []ast.Param{{Name: "y", Ty: ta()}},
+				Body: &ast.Term{Kind: ast.TNew, X: ast.N("z"), Ann: tb(), Body: &ast.Term{Kind: ast.TCall, Fn: fmt.Sprintf("mk%d", i), Args: []ast.Nm{ast.N("y")}},
+					K: &ast.Term{Kind: ast.TFwd, X: ast.SelfNm, Y: ast.N("z")}}})
+		}
+	}
+	v, _ := refcheck.Program(p, true)
+	if v.Unknown {
+		h.S.Count("reference_unknown")
+		return nil
+	}
+	c := &caseC07{Text: p.Text(nil), Mutant: "equality program: " + strings.Join(log, "; "), Reason: v.Reason, Detail: v.Detail, Site: v.Site, Expect: "reject", NonTriv: true}
+	if v.Accept {
+		c.Expect = "accept"
+	}
+	h.S.Count("equality_program->" + c.Expect)
+	return c
+}
+
 func genC07(rt *rapid.T, h *harness.H) interface{} {
+	if rapid.IntRange(0, 99).Draw(rt, "equalityprogram") >= 80 {
+		c := equalityProgram(rt, h)
+		if c != nil {
+			h.S.Sample(map[string]interface{}{"text": c.Text, "expect": c.Expect, "mutation": c.Mutant, "reason": c.Reason})
+		}
+		if c == nil {
+			return nil
+		}
+		return c
+	}
 	p, g := genProgram(rt, h)
 	if p == nil {
 		return nil
